@@ -152,6 +152,9 @@ void Exec::op_stmt(const Json& o){
     if(alias_a||alias_b||T==A||(binary&&T==B)){ c.ctr->add("probe_alias_stmt"); if(!is_elementwise(s.expr)) c.ctr->add("probe_alias_nonelementwise"); }
     if(s.flags) c.ctr->add("probe_guarantee_flags");
     if(s.flags&4) c.ctr->add("probe_aligned_flag");
+  }else if(st==ST_THREW && s.expr==E_NESTED && consumed_a && !operand_mismatch && A!=T){
+    // the value of the nested expression is computed (and its rvalue operand consumed) before the assignment rejects the size
+    if(!adopt(c,A,"C08")) return; c.mv[A].moved_from=true;
   }else if(st==ST_FAULTED){
     if(s.how==HOW_CTOR){ /* the object was never constructed */ }
     else if(!adopt(c,T,"C16",true)) return;
@@ -202,7 +205,7 @@ void Exec::op_query(const Json& o,const std::string& op){
   }
   if(op=="rotate_m"){
     long dm=o["d"].as_int(d); if(dm<1||dm>7){ skip("matrix size"); return; }
-    { std::vector<double> av=mvals(c,a); for(size_t i=0;i<av.size();i++) if(!(std::fabs(av[i])<1e60)){ skip("non-finite or huge values"); return; } }
+    { std::vector<double> av=mvals(c,a); for(size_t i=0;i<av.size();i++) if(!(std::fabs(av[i])<1e60) || (av[i]!=0 && std::fabs(av[i])<1e-100)){ skip("non-finite, huge or denormal-scale values"); return; } }
     bool bad=((unsigned)dm!=d);
     gsl_matrix_complex* U=make_unitary((unsigned)dm,(uint64_t)o["vs"].as_int(1));
     begin(op,bad?"C14":"C15");
@@ -213,11 +216,12 @@ void Exec::op_query(const Json& o,const std::string& op){
     shp(op); check_all(c,bad?"C14":"C15",sig); return;
   }
   // the GSL-backed matrix functions iterate (eigen solver, Pade order selection): non-finite or overflowing input is outside their
-  // preconditions (values can overflow through arithmetic on the 1e150 category) and can make GSL loop for ever
+  // preconditions (values can overflow through arithmetic on the 1e150 category, or underflow in the denormal category) and can make
+  // GSL's QR iteration loop for ever
   if(op=="eigen"||op=="utransform_v"||op=="utransform_m"||op=="weighted"||op=="rotate_b"||op=="rotate"){
     std::vector<double> av=mvals(c,a); bool fin=true;
-    for(size_t i=0;i<av.size();i++) if(!(std::fabs(av[i])<1e60)) fin=false;
-    if((op=="utransform_v"||op=="weighted")&&usable(b)){ std::vector<double> bv=mvals(c,b); for(size_t i=0;i<bv.size();i++) if(!(std::fabs(bv[i])<1e60)) fin=false; }
+    for(size_t i=0;i<av.size();i++) if(!(std::fabs(av[i])<1e60) || (av[i]!=0 && std::fabs(av[i])<1e-100)) fin=false;
+    if((op=="utransform_v"||op=="weighted")&&usable(b)){ std::vector<double> bv=mvals(c,b); for(size_t i=0;i<bv.size();i++) if(!(std::fabs(bv[i])<1e60) || (bv[i]!=0 && std::fabs(bv[i])<1e-100)) fin=false; }
     if(!fin){ skip("non-finite or huge values"); return; }
   }
   begin(op,"C15");
